@@ -1,8 +1,10 @@
 import Driver.Loop
-import Midgard.Model.TimeText
+import Midgard.Model.TimeFormats
 import Midgard.Generated.TimeScaleTables
 
-/-! Driver for C02: the time-format model (decimal year uses the regenerated TAI-UTC table). -/
+/-! Driver for C02: the time-format model (decimal year uses the regenerated TAI-UTC table).  `fromjds` / `tojds` answer
+through `fromJdsF` / `toJdsF` of `Model/TimeFormats.lean` (the functions `roundtrip_all` / `same_instant` are about),
+`shaped` through `toJdsShaped`, `wsin` through `wsToJdsIn`. -/
 namespace Driver.C02
 open Midgard.Proto Midgard.TimeArith Midgard.TimeFormat
 open Midgard.Generated.TimeScale (taiutc consts)
@@ -11,78 +13,109 @@ def parseScale? : String → Option Scale
   | "utc" => some .utc | "tai" => some .tai | "gps" => some .gps
   | "tt" => some .tt | "tcg" => some .tcg | _ => none
 
-def textFmt? : String → Option TextFmt
-  | "isot" => some .isot | "iso" => some .iso | "yday" => some .yday | "date" => some .date
-  | "yydddsssss" => some .yyddd | "yyyydddsssss" => some .yyyyddd | _ => none
+def fmt? : String → Option Fmt
+  | "jd" => some .jd | "mjd" => some .mjd | "datetime" => some .datetime | "gps_ws" => some .gps_ws
+  | "gps_seconds" => some .gps_seconds | "jyear" => some .jyear | "decimalyear" => some .decimalyear
+  | "isot" => some (.text .isot) | "iso" => some (.text .iso) | "yday" => some (.text .yday) | "date" => some (.text .date)
+  | "yydddsssss" => some (.text .yyddd) | "yyyydddsssss" => some (.text .yyyyddd) | _ => none
 
 def showJD (j : JD) : String := s!"{showRat j.jd1} {showRat j.jd2}"
 
-def toJds (fmt : String) (scale : Scale) (v : String) (v2 : String) : Option String := do
-  match fmt with
-  | "jd" =>
-    let a ← parseRat? v; let b ← if v2 = "-" then some 0 else parseRat? v2
-    pure (showJD (jdToJds a b))
-  | "mjd" =>
-    let a ← parseRat? v; let b ← if v2 = "-" then some 0 else parseRat? v2
-    pure (showJD (mjdToJds a b))
-  | "datetime" =>
-    let a ← parseInt? v; let b ← if v2 = "-" then some 0 else parseInt? v2
-    pure (showJD (dtToJds (a + b)))
-  | "gps_ws" =>
-    if scale ≠ .gps then pure "err" else
-    let a ← parseRat? v; let b ← parseRat? v2
-    pure (showJD (wsToJds a b))
-  | "gps_seconds" =>
-    if scale ≠ .gps ∨ v2 ≠ "-" then pure "err" else
-    let a ← parseRat? v
-    pure (showJD (gsToJds a))
-  | "jyear" =>
-    if v2 ≠ "-" then pure "err" else
-    let a ← parseRat? v
-    pure (showJD (jyToJds a))
-  | "decimalyear" =>
-    if v2 ≠ "-" then pure "err" else
-    let a ← parseRat? v
-    pure (showJD (dyToJds taiutc consts.tol scale a))
-  | _ =>
-    let f ← textFmt? fmt
-    if v2 ≠ "-" then pure "err" else
-    let s ← decodeHex? v
-    match textToJds f s.toList with
+/-- a value of format `F` from its protocol token(s) -/
+def val? (F : Fmt) (v v2 : String) : Option Val :=
+  match F with
+  | .datetime => (parseInt? v).map .dt
+  | .gps_ws => do let a ← parseRat? v; let b ← parseRat? v2; pure (.ws ⟨a, b, 0⟩)
+  | .text _ => (decodeHex? v).map fun s => .text s.toList
+  | _ => (parseRat? v).map .num
+
+def showVal : Val → String
+  | .num x => showRat x
+  | .dt d => toString d
+  | .ws w => s!"{showRat w.week} {showRat w.seconds} {showRat w.day}"
+  | .text s => encodeHex (String.ofList s)
+
+def showOut : Option JdsOut → String
+  | none => "err"
+  | some (.one j) => "one " ++ showJD j
+  | some (.many js) => "many" ++ String.join (js.map fun j => " " ++ showJD j)
+
+def toJds (F : Fmt) (scale : Scale) (v : String) (v2 : String) : Option String := do
+  -- the two-part inputs (val, val2) of jd, mjd, datetime
+  if v2 ≠ "-" ∧ F ≠ .gps_ws then
+    match F with
+    | .jd => let a ← parseRat? v; let b ← parseRat? v2; pure (showJD (jdToJds a b))
+    | .mjd => let a ← parseRat? v; let b ← parseRat? v2; pure (showJD (mjdToJds a b))
+    | .datetime => let a ← parseInt? v; let b ← parseInt? v2; pure (showJD (dtToJds (a + b)))
+    | _ => pure "err"     -- `val2 should be None`
+  else
+    let x ← val? F v v2
+    match toJdsF taiutc consts.tol F scale x with
     | some j => pure (showJD j)
     | none => pure "err"
 
-def fromJds (fmt : String) (scale : Scale) (j : JD) : Option String := do
-  match fmt with
-  | "jd" => pure (showRat (jdFromJds j))
-  | "mjd" => pure (showRat (mjdFromJds j))
-  | "datetime" => pure (toString (dtFromJds j))
-  | "gps_ws" =>
-    if scale ≠ .gps then pure "err" else
-    match wsFromJds j with
-    | some w => pure s!"{showRat w.week} {showRat w.seconds} {showRat w.day}"
-    | none => pure "err"
-  | "gps_seconds" =>
-    if scale ≠ .gps then pure "err" else
-    match gsFromJds j with
-    | some x => pure (showRat x)
-    | none => pure "err"
-  | "jyear" => pure (showRat (jyFromJds j))
-  | "decimalyear" => pure (showRat (dyFromJds taiutc consts.tol scale j))
-  | _ =>
-    let f ← textFmt? fmt
-    pure (encodeHex (String.ofList (textFromJds f j)))
+def fromJds (F : Fmt) (scale : Scale) (j : JD) : String :=
+  match fromJdsF taiutc consts.tol F scale j with
+  | some x => showVal x
+  | none => "err"
+
+/-- tokens `k x₁ … xₙ` (`k` = scalar | list | ndarray), each `xᵢ` one value token (gps_ws: `week,seconds`) -/
+def shaped? (F : Fmt) (toks : List String) : Option (Shaped Val) :=
+  let one (t : String) : Option Val :=
+    match F with
+    | .gps_ws => match t.splitOn "," with
+      | [a, b] => val? F a b
+      | _ => none
+    | _ => val? F t "-"
+  match toks with
+  | ["scalar", t] => (one t).map .scalar
+  | "list" :: ts => (ts.mapM one).map .list
+  | "ndarray" :: ts => (ts.mapM one).map .ndarray
+  | _ => none
+
+def pairs? (ts : List String) : Option (List (Rat × Rat)) :=
+  ts.mapM fun t => match t.splitOn "," with
+    | [a, b] => do let x ← parseRat? a; let y ← parseRat? b; pure (x, y)
+    | _ => none
+
+def rows? (ts : List String) : Option (List (List Rat)) :=
+  ts.mapM fun t => (t.splitOn ",").mapM parseRat?
+
+def wsIn? : List String → Option WsIn
+  | ["weeksec", "scalar", t] => (pairs? [t]).bind fun l => l.head?.map fun p => .weeksec (.scalar p)
+  | "weeksec" :: "ndarray" :: ts => (pairs? ts).map fun l => .weeksec (.ndarray l)
+  | ["pair", "scalar", t] => (pairs? [t]).bind fun l => l.head?.map fun p => .pair (.scalar p)
+  | "pair" :: "list" :: ts => (pairs? ts).map fun l => .pair (.list l)
+  | "pair" :: "ndarray" :: ts => (pairs? ts).map fun l => .pair (.ndarray l)
+  | "arr1" :: ts => (ts.mapM parseRat?).map .arr1
+  | "arr2" :: n :: ts => do let k ← n.toNat?; let r ← rows? ts; pure (.arr2 k r)
+  | ["other"] => some .other
+  | _ => none
 
 def handle : List String → Option String
   | ["c02", "tojds", fmt, scale, v, v2] => do
-    let s ← parseScale? scale
-    toJds fmt s v v2
+    let s ← parseScale? scale; let F ← fmt? fmt
+    toJds F s v v2
   | ["c02", "fromjds", fmt, scale, a, b] => do
-    let s ← parseScale? scale; let a ← parseRat? a; let b ← parseRat? b
-    fromJds fmt s ⟨a, b⟩
+    let s ← parseScale? scale; let F ← fmt? fmt; let a ← parseRat? a; let b ← parseRat? b
+    pure (fromJds F s ⟨a, b⟩)
   | ["c02", "jdintfrac", a, b] => do
     let a ← parseRat? a; let b ← parseRat? b
     pure s!"{showRat (jdInt ⟨a, b⟩)} {showRat (jdFrac ⟨a, b⟩)}"
+  | ["c02", "year2days", scale, y] => do
+    let s ← parseScale? scale; let y ← parseInt? y
+    pure (showRat (year2days taiutc consts.tol y s))
+  | "c02" :: "shaped" :: fmt :: scale :: toks => do
+    let s ← parseScale? scale; let F ← fmt? fmt; let v ← shaped? F toks
+    pure (showOut (toJdsShaped taiutc consts.tol F s v))
+  | "c02" :: "wsin" :: scale :: toks => do
+    let s ← parseScale? scale; let i ← wsIn? toks
+    pure (showOut (wsToJdsIn s i))
+  | ["c02", "utctext", fmt, a, b] => do
+    -- the text of the UTC label of a TAI epoch (C01's `tai2utc`, then the text format)
+    let F ← fmt? fmt; let a ← parseRat? a; let b ← parseRat? b
+    let u := Midgard.TimeScale.tai2utc taiutc consts.tol ⟨a, b⟩
+    pure (showJD u ++ " " ++ fromJds F .utc u)
   | _ => none
 
 end Driver.C02
